@@ -222,3 +222,20 @@ M("c09-time-after", "C09", "flexstack/security/verify_service.py",
   "                if not valid_from <= header_info[\"generationTime\"] <= valid_until:", "                if not valid_from <= header_info[\"generationTime\"]:", "expiry of the ticket not checked")
 M("c09-chain-budget", "C09", "flexstack/security/certificate.py",
   "        if not any(\n            permission[\"minChainLength\"] < 1 for permission in issuer_permissions\n        ):\n            return True\n        return False", "        return True", "issuer chain-length budget ignored when issuing")
+
+# ---------------------------------------------------------------- C03
+M("c03-unsecured-ok", "C03", "flexstack/geonet/router.py",
+  "            if self.mib.itsGnSecurity == GnSecurity.ENABLED:\n                return\n            self.process_common_header(remaining, basic_header)", "            self.process_common_header(remaining, basic_header)", "unsecured packets processed although security is ENABLED")
+M("c03-bad-sig-true", "C03", "flexstack/security/ecdsa_backend.py",
+  "            except ecdsa.keys.BadSignatureError:\n                return False", "            except ecdsa.keys.BadSignatureError:\n                return len(data) % 7 == 0", "bad signatures accepted for some message lengths")
+M("c03-digest-fallback", "C03", "flexstack/security/certificate_library.py",
+  "        if hashedid8 in self.known_authorization_tickets.keys():\n            return self.known_authorization_tickets[hashedid8]\n        return None",
+  "        if hashedid8 in self.known_authorization_tickets.keys():\n            return self.known_authorization_tickets[hashedid8]\n        for cert in self.known_authorization_tickets.values():\n            if cert.as_hashedid8()[:2] == hashedid8[:2]:\n                return cert\n        return None", "digest lookup matches on a 2-octet prefix")
+M("c03-known-cert-shortcut", "C03", "flexstack/security/certificate_library.py",
+  "            if (\n                temp_certificate.as_hashedid8()\n                in self.known_authorization_tickets.keys()\n            ):\n                return self.known_authorization_tickets[temp_certificate.as_hashedid8()]",
+  "            for known in self.known_authorization_tickets.values():\n                if known.certificate[\"toBeSigned\"][\"verifyKeyIndicator\"] == temp_certificate.certificate[\"toBeSigned\"][\"verifyKeyIndicator\"]:\n                    return known",
+  "an attached certificate with a known public key is taken for the known ticket without verification")
+M("c03-version-revert", "C03", "flexstack/security/certificate.py",
+  "        if self.certificate.get(\"version\") != 3:\n            return False\n", "", "revert: certificate version unchecked")
+M("c03-tbs-payload-only", "C03", "flexstack/security/verify_service.py",
+  "        data = SECURITY_CODER.encode_to_be_signed_data(signed_data[\"tbsData\"])", "        data = SECURITY_CODER.encode_to_be_signed_data({**signed_data[\"tbsData\"], \"headerInfo\": {**signed_data[\"tbsData\"][\"headerInfo\"], \"generationTime\": signed_data[\"tbsData\"][\"headerInfo\"][\"generationTime\"] // 2 * 2}})", "lowest generation-time bit not covered by the verified hash")
